@@ -251,4 +251,234 @@ theorem LogStore.lastLogId_spec {s : LogStore} (h : s.Coherent) :
 theorem LogStore.run_append (s : LogStore) (xs ys : List LogOp) : s.run (xs ++ ys) = (s.run xs).run ys := by
   simp [LogStore.run, List.foldl_append]
 
+/-! ### crash recovery (C36) -/
+
+/-- two index-sorted lists with the same members are equal -/
+theorem sorted_ext {l₁ l₂ : List Entry} (h₁ : Sorted l₁) (h₂ : Sorted l₂) (h : ∀ x, x ∈ l₁ ↔ x ∈ l₂) : l₁ = l₂ := by
+  induction l₁ generalizing l₂ with
+  | nil =>
+    cases l₂ with
+    | nil => rfl
+    | cons b bs => exact absurd ((h b).2 (by simp)) (by simp)
+  | cons a as ih =>
+    cases l₂ with
+    | nil => exact absurd ((h a).1 (by simp)) (by simp)
+    | cons b bs =>
+      have ha : ∀ z ∈ as, a.id.index < z.id.index := (List.pairwise_cons.1 h₁).1
+      have hb : ∀ z ∈ bs, b.id.index < z.id.index := (List.pairwise_cons.1 h₂).1
+      have hab : a = b := by
+        have h1 := (h a).1 (by simp)
+        have h2 := (h b).2 (by simp)
+        simp only [List.mem_cons] at h1 h2
+        rcases h1 with h1 | h1
+        · exact h1
+        · rcases h2 with h2 | h2
+          · exact h2.symm
+          · have := ha b h2; have := hb a h1; omega
+      subst hab
+      congr 1
+      apply ih (List.pairwise_cons.1 h₁).2 (List.pairwise_cons.1 h₂).2
+      intro x
+      constructor
+      · intro hx
+        have := (h x).1 (List.mem_cons_of_mem _ hx)
+        simp only [List.mem_cons] at this
+        rcases this with rfl | this
+        · have := ha _ hx; omega
+        · exact this
+      · intro hx
+        have := (h x).2 (List.mem_cons_of_mem _ hx)
+        simp only [List.mem_cons] at this
+        rcases this with rfl | this
+        · have := hb _ hx; omega
+        · exact this
+
+/-- the committed log up to an optional position -/
+def cutN (G : List Entry) (o : Option Nat) : List Entry := G.filter (fun e => upto o e.id.index)
+
+/-- SPEC: the state machine of a coordinator that applied the committed log `G` up to position `o` -/
+def smOf (G : List Entry) (o : Option Nat) : SM := applyEntriesT SM.init (cutN G o)
+
+theorem cutN_none (G : List Entry) : cutN G none = [] := by
+  simp [cutN, upto]
+
+/-- a sorted log up to `b` = the part up to `o` followed by the part in `(o, b]` -/
+theorem cutN_split {G : List Entry} (hG : Sorted G) (o : Option Nat) (b : Nat) (hob : ∀ x, o = some x → x ≤ b) :
+    cutN G (some b) = cutN G o ++ G.filter (fun e => above o e.id.index && decide (e.id.index ≤ b)) := by
+  cases o with
+  | none => simp [cutN, upto, above]
+  | some a =>
+    have hab : a ≤ b := hob a rfl
+    simp only [cutN, upto, above]
+    induction G with
+    | nil => rfl
+    | cons y ys ih =>
+      have hy : ∀ z ∈ ys, y.id.index < z.id.index := (List.pairwise_cons.1 hG).1
+      have hys : Sorted ys := (List.pairwise_cons.1 hG).2
+      by_cases h : y.id.index ≤ a
+      · have h1 : y.id.index ≤ b := by omega
+        have h2 : ¬ a < y.id.index := by omega
+        simp [h, h1, h2, ih hys]
+      · have hnil : (y :: ys).filter (fun e => decide (e.id.index ≤ a)) = [] := by
+          simp only [List.filter_eq_nil_iff, List.mem_cons, decide_eq_true_eq]
+          rintro z (rfl | hz)
+          · exact h
+          · have := hy z hz; omega
+        rw [hnil, List.nil_append]
+        apply List.filter_congr
+        intro z hz
+        simp only [List.mem_cons] at hz
+        have : a < z.id.index := by
+          rcases hz with rfl | hz
+          · omega
+          · have := hy z hz; omega
+        simp [this]
+
+theorem sorted_cutN {G : List Entry} (hG : Sorted G) (o : Option Nat) : Sorted (cutN G o) := hG.filter _
+
+theorem smOf_wf (G : List Entry) (o : Option Nat) : (smOf G o).state.WF :=
+  applyEntriesT_wf State.WF_init _
+
+/-- the applied position of the spec is the id of the last committed entry up to `o` -/
+theorem smOf_lastApplied (G : List Entry) (o : Option Nat) :
+    (smOf G o).lastApplied = (cutN G o).getLast?.map (·.id) := by
+  rw [smOf, applyEntriesT_lastApplied]
+  cases (cutN G o).getLast? <;> rfl
+
+/-- cutting at the applied position of `smOf G o` is cutting at `o` -/
+theorem cutN_lastApplied {G : List Entry} (hG : Sorted G) (o : Option Nat) :
+    cutN G (oidx (smOf G o).lastApplied) = cutN G o := by
+  rw [smOf_lastApplied]
+  cases hl : (cutN G o).getLast? with
+  | none =>
+    have : cutN G o = [] := List.getLast?_eq_none_iff.1 hl
+    simp [oidx, cutN_none, this]
+  | some m =>
+    simp only [Option.map_some, oidx]
+    have hm : m ∈ cutN G o := List.mem_of_getLast? hl
+    apply List.filter_congr
+    intro x hx
+    have hmo : upto o m.id.index = true := (List.mem_filter.1 hm).2
+    by_cases hxo : upto o x.id.index = true
+    · have : x ∈ cutN G o := List.mem_filter.2 ⟨hx, hxo⟩
+      have := sorted_getLast_max (sorted_cutN hG o) this hl
+      rw [hxo]; simp [upto, this]
+    · simp only [Bool.not_eq_true] at hxo
+      rw [hxo]
+      cases o with
+      | none => simp [upto] at hmo
+      | some k =>
+        simp only [upto, decide_eq_true_eq, decide_eq_false_iff_not] at hmo hxo ⊢
+        omega
+
+theorem smOf_fix {G : List Entry} (hG : Sorted G) (o : Option Nat) :
+    smOf G (oidx (smOf G o).lastApplied) = smOf G o := by
+  show applyEntriesT SM.init (cutN G (oidx (smOf G o).lastApplied)) = _
+  rw [cutN_lastApplied hG]; rfl
+
+/-! replay = the state component of applying entries -/
+
+/-- the fold of `replay_log` on total commands -/
+def replayT (st : State) (es : List Entry) : State :=
+  es.foldl (fun st e => match e.payload with
+    | .normal c => applyCmdT st c
+    | _ => st) st
+
+theorem applyEntriesT_state (sm : SM) (es : List Entry) : (applyEntriesT sm es).state = replayT sm.state es := by
+  induction es generalizing sm with
+  | nil => rfl
+  | cons e es ih =>
+    rw [applyEntriesT_cons, ih]
+    simp only [replayT, List.foldl_cons]
+    congr 1
+    unfold applyEntryT
+    cases e.payload <;> rfl
+
+theorem replayT_wf {st : State} (h : st.WF) (es : List Entry) : (replayT st es).WF := by
+  have := applyEntriesT_wf (sm := { state := st }) h es
+  rwa [applyEntriesT_state] at this
+
+theorem replay_fold_ok {st : State} (h : st.WF) (es : List Entry) :
+    es.foldl replayStep (Outcome.ok st) = Outcome.ok (replayT st es) := by
+  induction es generalizing st with
+  | nil => rfl
+  | cons e es ih =>
+    simp only [List.foldl_cons, replayStep, Outcome.bind_ok]
+    cases hp : e.payload with
+    | normal c =>
+      simp only [(applyCmd_eq_T h c).1]
+      rw [ih (applyCmd_eq_T h c).2]
+      simp [replayT, hp]
+    | blank => simp only []; rw [ih h]; simp [replayT, hp]
+    | membership cfg => simp only []; rw [ih h]; simp [replayT, hp]
+
+/-- what every disk a crash can leave satisfies, relative to the committed log `G` -/
+structure DInv (G : List Entry) (d : Disk) : Prop where
+  sorted : Sorted d.ls.log
+  applied : (smOf G (oidx d.lastApplied)).lastApplied = d.lastApplied
+  membership : (smOf G (oidx d.lastApplied)).membership = d.membership.getD {}
+  snap : ∀ s, d.snapData = some s →
+    s.dataState = (smOf G (oidx s.dataLast)).state ∧ ∀ x, oidx s.dataLast = some x → upto (oidx d.lastApplied) x = true
+  log : ∀ e : Entry, above (snapFrom d) e.id.index = true → upto (oidx d.lastApplied) e.id.index = true →
+    (e ∈ d.ls.log ↔ e ∈ G)
+
+theorem snapBase_spec {G : List Entry} {d : Disk} (h : DInv G d) : snapBase d = (smOf G (snapFrom d)).state := by
+  unfold snapBase snapFrom
+  cases hs : d.snapData with
+  | none => simp [smOf, cutN_none, SM.init]
+  | some s => simp [(h.snap s hs).1]
+
+theorem snapFrom_le {G : List Entry} {d : Disk} (h : DInv G d) (x : Nat) (hx : snapFrom d = some x) :
+    upto (oidx d.lastApplied) x = true := by
+  unfold snapFrom at hx
+  cases hs : d.snapData with
+  | none => simp [hs] at hx
+  | some s =>
+    simp only [hs] at hx
+    exact (h.snap s hs).2 x hx
+
+theorem replayState_spec {G : List Entry} (hG : Sorted G) {d : Disk} (h : DInv G d) :
+    replayState d = .ok (smOf G (oidx d.lastApplied)).state := by
+  unfold replayState
+  rw [snapBase_spec h]
+  cases hla : d.lastApplied with
+  | none =>
+    simp only [oidx]
+    have : snapFrom d = none := by
+      cases hx : snapFrom d with
+      | none => rfl
+      | some x => have := snapFrom_le h x hx; simp [hla, oidx, upto] at this
+    rw [this]
+  | some la =>
+    simp only [oidx]
+    have hle : ∀ x, snapFrom d = some x → x ≤ la.index := by
+      intro x hx
+      have := snapFrom_le h x hx
+      simpa [hla, oidx, upto] using this
+    have hlog : d.ls.log.filter (fun e => above (snapFrom d) e.id.index && decide (e.id.index ≤ la.index)) =
+        G.filter (fun e => above (snapFrom d) e.id.index && decide (e.id.index ≤ la.index)) := by
+      apply sorted_ext (h.sorted.filter _) (hG.filter _)
+      intro x
+      simp only [List.mem_filter, Bool.and_eq_true, decide_eq_true_eq]
+      constructor
+      · rintro ⟨h1, h2, h3⟩
+        exact ⟨(h.log x h2 (by simp [hla, oidx, upto, h3])).1 h1, h2, h3⟩
+      · rintro ⟨h1, h2, h3⟩
+        exact ⟨(h.log x h2 (by simp [hla, oidx, upto, h3])).2 h1, h2, h3⟩
+    rw [hlog, replay_fold_ok (smOf_wf G _)]
+    congr 1
+    rw [← applyEntriesT_state, smOf, smOf, cutN_split hG (snapFrom d) la.index hle, applyEntriesT_append]
+
+/-- recovery is exact: `open_with_shared_state` on a disk satisfying the invariant yields the spec state machine -/
+theorem reopen_spec {G : List Entry} (hG : Sorted G) {d : Disk} (h : DInv G d) :
+    reopen d = .ok { mem := smOf G (oidx d.lastApplied), disk := d } := by
+  unfold reopen
+  rw [replayState_spec hG h]
+  simp only [Outcome.bind_ok]
+  have e1 := h.applied
+  have e2 := h.membership
+  generalize smOf G (oidx d.lastApplied) = X at *
+  cases X
+  simp_all
+
 end Varpulis.RaftStore
